@@ -4,6 +4,7 @@ import (
 	"fmt"
 	"go/token"
 	"go/types"
+	"sort"
 	"strings"
 
 	"golang.org/x/tools/go/ssa"
@@ -290,4 +291,198 @@ func anyNilTestExported(iff *ssa.If) (ssa.Value, int, bool) {
 		}
 	}
 	return nil, 0, false
+}
+
+// ---- C12.reports-visible / C12.versions-as-given ----------------------------------------------------
+
+func init() {
+	register(&Rule{Name: "C12.reports-visible", Min: 1, Run: c12ReportsVisible,
+		Doc: "ChangesCursor.Next: a diff entry whose new value is a live row always becomes the current row — no other condition can skip it"})
+	register(&Rule{Name: "C12.versions-as-given", Min: 1, Run: c12VersionsAsGiven,
+		Doc: "the version sets s3db_changes opens are exactly the ones it was given: OnlyVersions is only ever assigned from the caller's argument, and each side is opened once"})
+	byProp["C12"] = append(byProp["C12"], "C12.reports-visible", "C12.versions-as-given")
+	explain["C12"] += " reports-visible: the decision table of ChangesCursor.Next in the world 'the step succeeded, the entry's new value is a row, the row is not deleted' — every feasible path stores that row as the current row; reaching the next loop iteration, eof or a row-less return there means a condition other than 'absent or deleted in to' filters rows (e.g. a value comparison that ignores the storage class drops NULL -> 0 changes). versions-as-given: in package sqlite the only value stored into S3Options.OnlyVersions is the enclosing function's parameter, and loadForDiffing calls OpenKV once — a fallback that opens another version set (the empty table) when a version cannot be found turns 'cannot read' into a complete-looking answer."
+}
+
+type chgState struct {
+	iter   int
+	stored bool
+}
+
+func (s chgState) Key() string { return fmt.Sprintf("%d/%v", s.iter, s.stored) }
+
+func c12ReportsVisible(c *Ctx) {
+	const rule = "C12.reports-visible"
+	fn := mustFunc(c, "sqlite", "*ChangesCursor", "Next")
+	curRow := mustField(c, "sqlite", "ChangesCursor", "currentRow")
+	eofF := mustField(c, "sqlite", "ChangesCursor", "eof")
+	if fn == nil || curRow == nil || eofF == nil {
+		return
+	}
+	name := core.FuncName(fn)
+	sc := c.Scope(fn)
+	var step *ssa.Call
+	for _, call := range sc.Calls() {
+		if cl, ok := call.(*ssa.Call); ok && calleeLabel(call) == "NextEntry" {
+			step = cl
+		}
+	}
+	if step == nil {
+		c.R.Unk(rule, name+": visible rows are reported", c.P.Pos(fn.Pos()), "no NextEntry call found")
+		return
+	}
+	H := loopHeaderOf(step.Block())
+	if H == nil {
+		c.R.Unk(rule, name+": visible rows are reported", c.P.Pos(fn.Pos()), "NextEntry is not called in a loop")
+		return
+	}
+	var entry, stepErr ssa.Value
+	for _, r := range *step.Referrers() {
+		if ex, ok := r.(*ssa.Extract); ok {
+			if ex.Index == 0 {
+				entry = ex
+			} else {
+				stepErr = ex
+			}
+		}
+	}
+	fromEntry := func(v ssa.Value) bool {
+		for i := 0; i < 6; i++ {
+			r := an.ExprRoot(v)
+			if r == entry {
+				return true
+			}
+			if ex, ok := r.(*ssa.Extract); ok {
+				if ta, ok := ex.Tuple.(*ssa.TypeAssert); ok {
+					v = ta.X
+					continue
+				}
+			}
+			if al, ok := r.(*ssa.Alloc); ok { // the entry spilled to a local
+				for _, rr := range *al.Referrers() {
+					if st, ok := rr.(*ssa.Store); ok && st.Addr == ssa.Value(al) {
+						v = st.Val
+					}
+				}
+				if an.ExprRoot(v) == r {
+					return false
+				}
+				continue
+			}
+			return false
+		}
+		return false
+	}
+	var violations []string
+	h := an.THooks{}
+	h.Branch = func(iff *ssa.If, side bool, st an.TState) an.TState {
+		cond, neg := an.StripNot(iff.Cond)
+		val, known := false, false
+		switch x := cond.(type) {
+		case *ssa.BinOp:
+			if x.Op == token.EQL || x.Op == token.NEQ {
+				var tested ssa.Value
+				if an.IsNilConst(x.Y) {
+					tested = x.X
+				} else if an.IsNilConst(x.X) {
+					tested = x.Y
+				}
+				switch {
+				case tested != nil && tested == stepErr:
+					val, known = x.Op == token.EQL, true // the step succeeded: err is nil
+				case tested != nil && fromEntry(tested):
+					val, known = x.Op != token.EQL, true // new value and row are non-nil
+				case tested == nil && (x.X == stepErr || x.Y == stepErr):
+					val, known = x.Op != token.EQL, true // err is not a sentinel either
+				}
+			}
+		case *ssa.UnOp:
+			if f := an.FieldOfLoad(x); f != nil && f.Name() == "Deleted" && fromEntry(x) {
+				val, known = false, true
+			}
+		case *ssa.Call:
+			// row.GetDeleted()
+			if calleeLabel(x) == "GetDeleted" && len(x.Call.Args) > 0 && fromEntry(x.Call.Args[0]) {
+				val, known = false, true
+			}
+		case *ssa.Extract:
+			// ok of "row, ok := de.NewValue.(*Row)": it is a row
+			if ta, isTA := x.Tuple.(*ssa.TypeAssert); isTA && x.Index == 1 && fromEntry(ta.X) {
+				val, known = true, true
+			}
+		}
+		if known && (val != neg) != side {
+			return nil
+		}
+		return st
+	}
+	h.Instr = func(in ssa.Instruction, st0 an.TState) an.TState {
+		st := st0.(chgState)
+		if in.Block() == H && in == H.Instrs[firstNonPhi(H)] {
+			st.iter++
+			if st.iter >= 2 {
+				if !st.stored {
+					violations = append(violations, "the entry is skipped (the loop goes on to the next diff entry)")
+				}
+				return nil
+			}
+		}
+		if s, ok := in.(*ssa.Store); ok {
+			if fa, ok := s.Addr.(*ssa.FieldAddr); ok {
+				switch an.FieldVar(fa.X.Type(), fa.Field) {
+				case curRow:
+					if fromEntry(s.Val) {
+						st.stored = true
+					}
+				case eofF:
+					if cb, isC := constBool(s.Val); isC && cb && !st.stored {
+						violations = append(violations, "the entry is taken for the end of the diff (eof = true)")
+						return nil
+					}
+				}
+			}
+		}
+		return st
+	}
+	exits, _ := an.WalkTypestateFrom(H, 0, chgState{}, nil, h, sc)
+	for _, ex := range exits {
+		if ex.ErrNil != 0 && !ex.St.(chgState).stored {
+			violations = append(violations, "Next returns without a current row at "+c.P.Pos(ex.Ret.Pos()))
+		}
+	}
+	sort.Strings(violations)
+	violations = uniqStrings(violations)
+	c.R.Cond(len(violations) == 0, rule, name+": visible rows are reported", c.P.Pos(fn.Pos()),
+		"in the world 'step succeeded, new value is a live row' every path makes it the current row",
+		"a row that is visible in 'to' and differs from 'from' can be left out of s3db_changes: "+strings.Join(violations, "; ")+" — only 'absent or deleted in to' may filter a diff entry")
+}
+
+func c12VersionsAsGiven(c *Ctx) {
+	const rule = "C12.versions-as-given"
+	onlyV := mustField(c, "", "S3Options", "OnlyVersions")
+	lfd := mustFunc(c, "sqlite", "", "loadForDiffing")
+	if onlyV == nil || lfd == nil {
+		return
+	}
+	n := 0
+	for _, fn := range c.P.RepoFuncs(func(rel string) bool { return rel == "sqlite" }) {
+		for _, st := range an.StoresToField(fn, onlyV) {
+			n++
+			root := an.Unwrap(st.Val)
+			_, isParam := root.(*ssa.Parameter)
+			c.R.Cond(isParam, rule, core.FuncName(fn)+": OnlyVersions is the caller's argument", c.P.Pos(st.Pos()),
+				"assigned from a parameter", "OnlyVersions is assigned a value that is not the version set the caller asked for (e.g. the empty version as a fallback when a version cannot be found): the diff is taken against another table state and looks complete")
+		}
+	}
+	opens := 0
+	sc := c.Scope(lfd)
+	for _, call := range sc.Calls() {
+		if f := call.Common().StaticCallee(); f != nil && f.Name() == "OpenKV" {
+			opens++
+		}
+	}
+	c.R.Cond(opens == 1, rule, core.FuncName(lfd)+": one open per side", c.P.Pos(lfd.Pos()), "OpenKV is called once", fmt.Sprintf("OpenKV is called %d times: a second open after a failed one answers a query about versions that could not be read", opens))
+	if n == 0 {
+		c.R.Unk(rule, "sqlite: OnlyVersions", "-", "no assignment of S3Options.OnlyVersions found in package sqlite")
+	}
 }
